@@ -138,6 +138,24 @@ class FakePopen:
         self.args = args[0] if args else kwargs.get("args")
         self.returncode = None
         self.stdin = self.stdout = self.stderr = None
+        self.entry = world.procs[pid]  # [wait status or None, reaped] of *this* incarnation
+
+    # simulation-side view of this child (pids may be reused, entries are not)
+    def sim_exit(self, status):
+        if self.entry[0] is not None or self.entry[1]:
+            return False
+        self.entry[0] = status
+        self._world.ev("child_exit", self.pid, status)
+        return True
+
+    def sim_running(self):
+        return self.entry[0] is None and not self.entry[1]
+
+    def sim_zombie(self):
+        return self.entry[0] is not None and not self.entry[1]
+
+    def sim_reaped(self):
+        return self.entry[1]
 
     def poll(self):
         return self.returncode
